@@ -44,7 +44,13 @@ func VerifC08_VecMinMaxAbs() {
 		verifAssert(verifImplies(nn, verifAnd(hi >= a, hi >= b)), "max is an upper bound")
 		verifAssert(verifImplies(nn, verifOr(lo == a, lo == b)), "min is one of the operands")
 		verifAssert(verifImplies(nn, verifOr(hi == a, hi == b)), "max is one of the operands")
-		verifAssert(verifImplies(verifNot(nn), verifAnd(lo != lo, hi != hi)), "NaN operand gives NaN")
+		// math.Min/Max: an operand equal to the dominating infinity wins even
+		// against NaN (Min(x, -Inf) = -Inf, Max(x, +Inf) = +Inf); otherwise a
+		// NaN operand gives NaN
+		negInf := verifOr(a < -1.7976931348623157e308, b < -1.7976931348623157e308)
+		posInf := verifOr(a > 1.7976931348623157e308, b > 1.7976931348623157e308)
+		verifAssert(verifImplies(verifAnd(verifNot(nn), verifNot(negInf)), lo != lo), "NaN operand gives NaN (min)")
+		verifAssert(verifImplies(verifAnd(verifNot(nn), verifNot(posInf)), hi != hi), "NaN operand gives NaN (max)")
 		verifAssert(verifOr(verifSame(abs, a), verifSame(abs, -a)), "abs is +-a")
 		verifAssert(verifImplies(a == a, abs >= 0), "abs is non-negative")
 	}
